@@ -344,6 +344,7 @@ class Executor:
         self.trace = bool(os.environ.get('MIRSYM_TRACE'))
         self.mux_cache = {}
         self.concrete_libm = False
+        self.overrides = {}               # function name (last path segment) -> builtin replacing it
         self.progress = int(os.environ.get('MIRSYM_PROGRESS', '0'))
 
     # -------------------------------------------------------------------------------- solver
@@ -430,6 +431,32 @@ class Executor:
         assert not out, 'states stopped without a stop condition'
         return self.leaves
 
+    def run_with_cells(self, fn, args, env=None, pc=None):
+        """Like run(), but arguments given as ('cell', value) are placed in a fresh mutable cell and passed as
+        `&mut` references; the final cell contents are available in each Leaf's `cells`."""
+        st = State()
+        st.fuel = self.fuel0
+        if env:
+            st.env.update(env)
+        if pc:
+            st.pc = list(pc)
+        self.leaves = []
+        if isinstance(fn, str):
+            fn = self.prog.items[fn]
+        real = []
+        self.cell_ids = []
+        for a in args:
+            if isinstance(a, tuple) and len(a) == 2 and a[0] == 'cell':
+                cid = st.new_cell(a[1])
+                self.cell_ids.append(cid)
+                real.append(Ref(('C', cid), (), True))
+            else:
+                real.append(a)
+        self.push_mir_frame(st, fn, real, ('top',))
+        out = self.explore(st, [])
+        assert not out
+        return self.leaves
+
     def run_builtin_call(self, callee, args, env=None, pc=None):
         """Explore a call given by callee text (may resolve to builtin or MIR)."""
         st = State()
@@ -440,7 +467,7 @@ class Executor:
             st.pc = list(pc)
         self.leaves = []
         ev = self.invoke(st, callee, args, ('top',), None)
-        out = self._after_event(st, ev, [])
+        out = self._after_event(st, ev if ev is not None else ('cont',), [])
         assert not out
         return self.leaves
 
@@ -869,9 +896,31 @@ class Executor:
             name, pyfn, info = target[1], target[2], target[3]
             c = self.stats['builtin_calls']
             c[name] = c.get(name, 0) + 1
-            r = pyfn(self, st, info, args)
+            sym = [i for i, a in enumerate(args) if isinstance(a, Enum) and a.variant is None and a.ty == 'Option']
+            if sym and not getattr(pyfn, 'symbolic_option_ok', False):
+                i = sym[0]
+                alts = []
+                for cond, ov in split_option(args[i]):
+                    a2 = list(args)
+                    a2[i] = ov
+                    alts.append((cond, (lambda s2, a2=a2: self._call_builtin_again(s2, name, pyfn, info, a2))))
+                r = Choices(alts)
+            else:
+                r = pyfn(self, st, info, args)
             return self.handle_result(st, r, ret)
         raise ExecError('bad target')
+
+    def _call_builtin_again(self, st, name, pyfn, info, args):
+        sym = [i for i, a in enumerate(args) if isinstance(a, Enum) and a.variant is None and a.ty == 'Option']
+        if sym:
+            i = sym[0]
+            alts = []
+            for cond, ov in split_option(args[i]):
+                a2 = list(args)
+                a2[i] = ov
+                alts.append((cond, (lambda s2, a2=a2: self._call_builtin_again(s2, name, pyfn, info, a2))))
+            return Choices(alts)
+        return pyfn(self, st, info, args)
 
     def resolve_callee(self, st, callee, args, fr):
         if isinstance(callee, mp.Fn):
@@ -915,6 +964,10 @@ class Executor:
     def _resolve_static(self, callee):
         text = strip_lifetimes(callee)
         info = parse_callee(text)
+        if self.overrides:
+            o = self.overrides.get(info['method'])
+            if o is not None:
+                return ('builtin', 'override:' + info['method'], o, info)
         # 1. trait methods implemented in the dumped crates for a (non-reference) user type
         if info['trait'] is not None and not info['selfty'].lstrip().startswith(('&', '[', '(')):
             name = self.prog.find_method(type_key(info['selfty']), info['trait'], info['method'])
@@ -1078,6 +1131,8 @@ class Executor:
             if not isinstance(v, Enum):
                 raise ExecError('downcast on non-enum %r' % (v,))
             if v.variant != p[1]:
+                if v.variant is None and v.ty == 'Option' and p[1] == 'Some' and v.f:
+                    return v
                 raise ExecError('downcast to %s but value is %r (%s)' % (p[1], v, self.where(st)))
             return v
         if k == 'idx':
@@ -1195,10 +1250,10 @@ class Executor:
             if isinstance(v, Enum):
                 f = list(v.f)
                 f[idx] = self.update(st, f[idx], projs, i + 1, nv)
-                return Enum(v.ty, v.variant, f)
+                return Enum(v.ty, v.variant, f, discr=v.discr)
             raise ExecError('field update on %r' % (v,))
         if k == 'downcast':
-            if not isinstance(v, Enum) or v.variant != p[1]:
+            if not isinstance(v, Enum) or (v.variant != p[1] and not (v.variant is None and v.ty == 'Option' and p[1] == 'Some' and v.f)):
                 raise ExecError('downcast update mismatch')
             return self.update(st, v, projs, i + 1, nv)
         if k == 'idx':
@@ -1622,7 +1677,7 @@ def reify_refs(v, locals_, depth, seen=0):
     if isinstance(v, Struct):
         return Struct(v.ty, [reify_refs(x, locals_, depth, seen + 1) for x in v.f])
     if isinstance(v, Enum) and v.f:
-        return Enum(v.ty, v.variant, [reify_refs(x, locals_, depth, seen + 1) for x in v.f])
+        return Enum(v.ty, v.variant, [reify_refs(x, locals_, depth, seen + 1) for x in v.f], discr=v.discr)
     if isinstance(v, Arr):
         return Arr([reify_refs(x, locals_, depth, seen + 1) for x in v.e])
     return v
@@ -1884,18 +1939,8 @@ def flt_binop(op, a, b):
             return mk_flt(ty, math.fmod(x, y))
         raise ExecError('float binop ' + op)
     x, y = to_fp(a), to_fp(b)
-    if op == 'Eq':
-        return mk_bool(z3.fpEQ(x, y))
-    if op == 'Ne':
-        return mk_bool(z3.Not(z3.fpEQ(x, y)))
-    if op == 'Lt':
-        return mk_bool(z3.fpLT(x, y))
-    if op == 'Le':
-        return mk_bool(z3.fpLEQ(x, y))
-    if op == 'Gt':
-        return mk_bool(z3.fpGT(x, y))
-    if op == 'Ge':
-        return mk_bool(z3.fpGEQ(x, y))
+    if op in _CMP:
+        return fp_cmp(op, x, y)
     if op == 'Add':
         return Flt(ty, z3.fpAdd(RNE, x, y))
     if op == 'Sub':
@@ -1910,6 +1955,70 @@ def flt_binop(op, a, b):
 
 
 FMOD_SIDE_CONDITIONS = []
+
+# Floating-point comparison results are abstracted to fresh Boolean atoms during exploration: feasibility and
+# panic queries then stay in QF_BV (an over-approximation of feasibility, hence sound for "no path panics").
+# The definitions are kept so that checks which need the exact meaning can add them back (fp_definitions).
+FP_ABSTRACT = True
+FP_ATOMS = {}        # ast id of the comparison -> (atom, comparison)
+FP_BY_ATOM = {}      # atom name -> comparison
+
+
+def fp_cmp(op, x, y, depth=0):
+    """FP comparison with if-then-else operands distributed outwards, then abstracted to atoms"""
+    if depth < 12:
+        if z3.is_app_of(x, z3.Z3_OP_ITE):
+            c, t, e = x.children()
+            return mk_bool(z3.If(c, to_z3bool(fp_cmp(op, t, y, depth + 1)), to_z3bool(fp_cmp(op, e, y, depth + 1))))
+        if z3.is_app_of(y, z3.Z3_OP_ITE):
+            c, t, e = y.children()
+            return mk_bool(z3.If(c, to_z3bool(fp_cmp(op, x, t, depth + 1)), to_z3bool(fp_cmp(op, x, e, depth + 1))))
+    r = {'Eq': lambda: z3.fpEQ(x, y), 'Ne': lambda: z3.Not(z3.fpEQ(x, y)), 'Lt': lambda: z3.fpLT(x, y),
+         'Le': lambda: z3.fpLEQ(x, y), 'Gt': lambda: z3.fpGT(x, y), 'Ge': lambda: z3.fpGEQ(x, y)}[op]()
+    if op == 'Ne':
+        return b_not(fp_atom(z3.fpEQ(x, y)))
+    return fp_atom(r)
+
+
+def fp_atom(cmp_term):
+    r = mk_bool(cmp_term)
+    if isinstance(r, bool) or not FP_ABSTRACT:
+        return r
+    k = r.get_id()
+    e = FP_ATOMS.get(k)
+    if e is None:
+        atom = z3.Bool('fpatom!%d' % len(FP_ATOMS))
+        e = (atom, r)
+        FP_ATOMS[k] = e
+        FP_BY_ATOM[str(atom)] = r
+    return e[0]
+
+
+def fp_definitions(terms):
+    """Definitions (atom == comparison) of every abstraction atom occurring in `terms`, transitively."""
+    out = []
+    seen_atoms = set()
+    seen = set()
+    stack = list(terms)
+    while stack:
+        t = stack.pop()
+        if not z3.is_expr(t):
+            continue
+        i = t.get_id()
+        if i in seen:
+            continue
+        seen.add(i)
+        if z3.is_const(t) and t.decl().kind() == z3.Z3_OP_UNINTERPRETED and str(t).startswith('fpatom!'):
+            nm = str(t)
+            if nm not in seen_atoms:
+                seen_atoms.add(nm)
+                d = FP_BY_ATOM.get(nm)
+                if d is not None:
+                    out.append(t == d)
+                    stack.append(d)
+            continue
+        stack.extend(t.children())
+    return out
 
 
 def fp_fmod(x, y, ty):
